@@ -157,9 +157,9 @@ pub fn record(output: &str) {
     quiet_panics();
     let mut out = Out::create(output);
     let mut r = rng(1212);
-    let n_cases = if thorough() { 48 } else { 12 };
+    let n_cases = if thorough() { 96 } else { 12 };
     let pools: Vec<usize> = if thorough() { vec![1, 2, 8, 16] } else { vec![1, 8] };
-    let reps = if thorough() { 2 } else { 1 };
+    let reps = if thorough() { 3 } else { 1 };
     for k in 0..n_cases {
         let obstacle_class = ["free", "blocking", "grazing", "at-stroke-pose", "wrist-flip", "branch-blocking"][k % 6];
         let y0 = r.gen_range(-0.25..-0.1);
